@@ -95,6 +95,18 @@ func gen(t *rapid.T) Case {
 	c.PlainStore = rapid.IntRange(0, 4).Draw(t, "plainstore") == 0
 	c.Again = rapid.IntRange(0, 3).Draw(t, "again") == 0
 	c.SharedOpts = rapid.Bool().Draw(t, "sharedopts")
+	if rapid.IntRange(0, 5).Draw(t, "sharedscenario") == 0 {
+		// several layers through one zstd:chunked converter function whose option slice has spare capacity, all at once
+		c.Converter, c.ChunkSize, c.SharedOpts, c.Parallel, c.Retry = "zstdchunked", 16, true, true, false
+		for i := range c.Layers {
+			c.Layers[i].PerLayer = 0
+		}
+		for len(c.Layers) < 3 {
+			l := c.Layers[0]
+			l.Archive.Entries = append(append([]tarmodel.Entry(nil), l.Archive.Entries...), tarmodel.Entry{Name: fmt.Sprintf("extra-marker-%d", len(c.Layers)), Type: "reg", Mode: 0o644, MTime: 1600000000, Size: 5 + len(c.Layers), Seed: uint32(300 + len(c.Layers))})
+			c.Layers = append(c.Layers, l)
+		}
+	}
 	c.Retry = rapid.IntRange(0, 3).Draw(t, "retry") == 0
 	if c.Retry {
 		c.RetryAfter = rapid.SampledFrom([]int{-1, 0, 1, 10, 100, 100, 700, 700, 3000}).Draw(t, "retryafter")
